@@ -43,7 +43,8 @@ LeafArgs(kw) ==
                        \cup (IF Rich THEN {JFlt(1, 1), JInt(0), JBool(FALSE), JArr(<<JInt(1)>>),
                                            O1("a", JBool(TRUE))} ELSE {})
     [] kw = "enum"  -> {<<JInt(1), JStr("a")>>, <<JArr(<<JInt(1)>>)>>, <<JBool(FALSE)>>}
-                       \cup (IF Rich THEN {<<JInt(0), JNull>>, <<O1("a", JInt(1)), JBool(TRUE)>>}
+                       \cup (IF Rich THEN {<<JInt(0), JNull>>, <<O1("a", JInt(1)), JBool(TRUE)>>,
+                                           <<JInt(0), JBool(FALSE), JInt(1), JFlt(1, 1)>>}
                              ELSE {})
     [] kw \in {"minimum", "maximum", "exclusiveMinimum", "exclusiveMaximum"}
                     -> {JInt(1), JFlt(3, 2)}
